@@ -203,9 +203,11 @@ func trunc(s string, n int) string {
 // ---------- run ----------
 
 type perturb struct {
-	seed  uint64
-	n     atomic.Uint64
-	bigAt [4]uint64
+	seed    uint64
+	n       atomic.Uint64
+	bigAt   [4]uint64
+	stallAt uint64
+	stallMs int
 }
 
 func splitmix(x uint64) uint64 {
@@ -217,6 +219,10 @@ func splitmix(x uint64) uint64 {
 
 func (p *perturb) point(k int) {
 	i := p.n.Add(1)
+	if p.stallMs > 0 && i == p.stallAt {
+		time.Sleep(time.Duration(p.stallMs) * time.Millisecond)
+		return
+	}
 	h := splitmix(p.seed ^ (i * 0x100000001b3) ^ uint64(k)<<56)
 	for _, b := range p.bigAt {
 		if b == i {
@@ -272,7 +278,7 @@ func opRun(req *wire.Req, resp *wire.Resp) {
 
 	var pt *perturb
 	if req.YieldSeed != 0 {
-		pt = &perturb{seed: req.YieldSeed}
+		pt = &perturb{seed: req.YieldSeed, stallAt: req.StallAt, stallMs: req.StallMs}
 		for i := range pt.bigAt {
 			pt.bigAt[i] = 1 + splitmix(req.YieldSeed+uint64(i)*77)%400
 		}
@@ -303,6 +309,17 @@ func opRun(req *wire.Req, resp *wire.Resp) {
 			resp.ProcCount = re.ProcessCount()
 			resp.DeadCount = re.DeadProcessCount()
 			_ = re.TimeTaken()
+		}
+		if req.StallMs > 0 {
+			// a process that was held up longer than the inactivity timer resumes after the run has
+			// been declared finished: give it the time to do so within this request, then use the
+			// finished run's API once more
+			time.Sleep(time.Duration(req.StallMs+150) * time.Millisecond)
+			if req.PostAPI {
+				_ = re.TimeTaken()
+				_ = re.ProcessCount()
+				_ = re.DeadProcessCount()
+			}
 		}
 		collectPrints(resp)
 		if pt != nil {
